@@ -900,6 +900,21 @@ class FnTranslator:
             if isinstance(st, ast.Raise):
                 out.append(("raise", self.exc_of(st)))
                 return out
+            if isinstance(st, ast.If) and isinstance(st.test, ast.BoolOp) and self.needs_statement_form(st.test, ctx):
+                # a raising call in a later operand of the test:
+                #   `if A and B: X else: Y`  ==  `if A: (if B: X else: Y) else: Y`
+                #   `if A or B: X else: Y`   ==  `if A: X else: (if B: X else: Y)`
+                v = st.test
+                first, others = v.values[0], v.values[1:]
+                tail = others[0] if len(others) == 1 else ast.copy_location(ast.BoolOp(op=v.op, values=others), v)
+                inner = ast.copy_location(ast.If(test=tail, body=st.body, orelse=st.orelse), st)
+                if isinstance(v.op, ast.And):
+                    new = ast.If(test=first, body=[inner], orelse=st.orelse)
+                else:
+                    new = ast.If(test=first, body=st.body, orelse=[inner])
+                stmts = [ast.copy_location(new, st)] + rest
+                i = 0
+                continue
             if isinstance(st, ast.If):
                 sv = self.static(st.test, ctx)
                 if sv is True:
@@ -1852,7 +1867,8 @@ class FnTranslator:
                 txt, ty = self.operator_call(e, ta, "__len__", [(a, ta)], ctx, pre, cond)
                 if ty != "Int":
                     self.bad(e, "__len__ does not return Int")
-                return "pure", txt, "Int"
+                # the builtin checks the value __len__ returned: ValueError if negative, OverflowError above sys.maxsize
+                return self.deliver(e, f"Pyoda.Gen.pyLen {self.paren(txt)}", "Int", True, pre, cond, want_raw)
             if f.id == "int" and len(e.args) == 1 and not e.keywords:
                 a, ta = self.expr(e.args[0], ctx, pre, cond)
                 if ta != "Int":
